@@ -1,7 +1,7 @@
 (* C18 — The shard map always partitions the hash space and routes every key to one shard.
    This file contains only the property theorems (each closed by [exact]) and Print Assumptions. *)
 From Coq Require Import List NArith ZArith Permutation.
-From Oxia.Shard Require Import Model Proofs Status StatusProofs ClientProofs.
+From Oxia.Shard Require Import Model Proofs Status StatusProofs ClientProofs Dispatcher DispatcherProofs.
 Import ListNotations.
 Open Scope N_scope.
 
@@ -132,3 +132,14 @@ Theorem c18_client_server_agree :
   exists s, route (assignments ns2) h = [s] /\ route m2 h = [s].
 Proof. exact client_server_agree. Qed.
 Print Assumptions c18_client_server_agree.
+
+(* The server-side assignment dispatcher, in every interleaving of client registrations, coordinator pushes, Send
+   completions / failures on the client streams and client disconnects: a client that waits for updates is
+   registered, and the last update it was sent is the dispatcher's current assignment for its namespace.  (A client
+   that was inside a Send when a push arrived is cut off instead and has to subscribe again.) *)
+Theorem c18_dispatcher_last_update_is_current : forall (acts : list daction) (c : dclient),
+  In c (d_clients (drun acts)) -> dc_phase c = Waiting ->
+  dc_reg c = true /\
+  exists a, d_cur (drun acts) = Some a /\ last_update c = Some (filter_ns (dc_ns c) a).
+Proof. exact dispatcher_last_update_is_current. Qed.
+Print Assumptions c18_dispatcher_last_update_is_current.
